@@ -70,8 +70,10 @@ const handshakeSize = 12
 func performHandshake(rw io.ReadWriter) error {
 	var h handshake
 
-	// Copy exactly handshakeSize bytes from rw to handshake
-	if _, err := io.CopyN(&h, rw, handshakeSize); err != nil {
+	// Read exactly handshakeSize bytes from rw, however the transport splits them into reads, then decode them.
+	var buf [handshakeSize]byte
+	n, _ := io.ReadFull(rw, buf[:])
+	if _, err := h.Write(buf[:n]); err != nil {
 		return fmt.Errorf("read handshake: %w", err)
 	}
 	if !h.Valid() {
